@@ -1567,6 +1567,10 @@ def gen_C17(rng, tier):
             c = h.newu(); h.ops.append("%s=copy %s" % (c, f1)); h.ops.append("%s %s %s" % (rng.choice(["add", "sub", "mult"]), c, f0))
             h.ops.append("%s,%s=quorem %s %s" % (h.newu(), h.newu(), f0, f1))
             h.ops.append("%s=gcd %s %s" % (h.newu(), f1, f0))
+        # gcd / quorem with an operand that already carries an error (same ring)
+        h.ops.append("%s=gcd %s %s" % (h.newu(), badp, f0)); h.ops.append("%s=gcd %s %s" % (h.newu(), f0, badp))
+        h.ops.append("%s=gcd %s %s %s" % (h.newu(), f0, f0, badp))
+        h.ops.append("%s,%s=quorem %s %s" % (h.newu(), h.newu(), badp, f0)); h.ops.append("%s,%s=quorem %s %s" % (h.newu(), h.newu(), f0, badp))
         upool = [f0, badp, h.upoly(deg=2, ring=0)]
         for _ in range(rng.randrange(2, 9)):
             a, b = rng.choice(upool), rng.choice(upool)
